@@ -1,10 +1,11 @@
 """C08 — README.txt is current after every operation."""
 import ast
+from ..pathcond import inline, canon, find_defs, runs_under
 
 from ..rules import must_precede, must_follow, transitively_calls
 from ..cfg import cfg_of, always_raises
 from ..effects import MUTATING
-from ..astutil import dotted, get_arg, derived, norm, enclosing, names_in, defs_of
+from ..astutil import dotted, get_arg, derived, norm, enclosing, names_in, defs_of, assignments
 from ..srcmodel import own_nodes, AnalysisError, FuncRef
 from ..escape import map_yielders, with_blocks
 from .C17 import find_committer, subarray_role
@@ -223,16 +224,23 @@ def d3_single_source(ctx):
         reg = ctx.repo.module(regname).consts.get('readcodefunc')
         if not isinstance(reg, dict):
             raise AnalysisError(f'{regname}.readcodefunc is not a literal registry')
+        # the loop that calls the dispatcher; what it ranges over (locals inlined) is the README language list
+        disp0 = ctx.repo.module(regname).funcs.get('readcode')
+        loops = [n for n in own_nodes(f.node) if isinstance(n, ast.For) and
+                 any(cal is disp0 and any(x is c for x in ast.walk(n)) for c, cal in ctx.E.callees(f))]
         langs = None
-        for v, st in defs_of(f.node, 'languages'):
+        if loops:
+            it = inline(f, loops[0].iter)
             try:
-                langs = [b for a, b in ast.literal_eval(v)]
+                seq = ast.literal_eval(it)
+                langs = []
+                for item in seq:
+                    cand = [x for x in (item if isinstance(item, (tuple, list)) else (item,)) if x in reg]
+                    langs.extend(cand[:1] if cand else [item])
             except Exception:
-                pass
-        ctx.decide(langs is not None and set(langs) == set(reg) and len(langs) == len(set(langs)),
-                   'R-SIB', 'D3', f, None, 'language-list-equals-registry',
-                   f'{modname}.readcodetxt ranges over exactly the registry keys ({len(reg)})',
-                   detail=f'README languages {sorted(langs) if langs else langs} != registry {sorted(reg)}')
+                t = norm(it)
+                if t in ('readcodefunc', 'readcodefunc.keys()', 'sorted(readcodefunc)', 'list(readcodefunc)', 'readcodelanguages'):
+                    langs = list(reg)
         disp = ctx.repo.module(regname).funcs.get('readcode')
         ok = any(cal is disp for _, cal in ctx.E.callees(f))
         pub = ctx.repo.cls('Array' if modname == 'array' else 'RaggedArray').methods.get('readcode')
@@ -241,7 +249,15 @@ def d3_single_source(ctx):
                    f'{modname}.readcodetxt and the public readcode() call the same dispatcher {regname}.readcode',
                    detail='README snippets and readcode() output come from different code')
         # withheld languages are skipped, offered ones included: `if codetext is not None`
-        ok = any(isinstance(n, ast.If) and norm(n.test) in ('codetext is not None',) for n in own_nodes(f.node))
+        ok = False
+        if loops:
+            cvars = [nm for nm, v, st in assignments(f.node) if isinstance(v, ast.Call) and
+                     any(cal is disp0 and c is v for c, cal in ctx.E.callees(f))]
+            adds = [n for n in ast.walk(loops[0]) if isinstance(n, (ast.AugAssign, ast.Expr)) and
+                    any(isinstance(x, ast.Name) and x.id in cvars for x in ast.walk(n))]
+            if cvars and adds:
+                from ._trunc import folder
+                ok = all(runs_under(f, a_, folder({cvars[0]: None})) is False for a_ in adds)
         ctx.decide(ok, 'R-SIB', 'D3', f, None, 'skips-withheld', f'{modname}.readcodetxt includes exactly the offered languages',
                    detail='the `is not None` filter on generated code vanished')
     nt = ctx.repo.func('array.numtypedescriptiontxt')
